@@ -394,25 +394,126 @@ def ev_conc(e, st, nd=0):
 
 # ----------------------------------------------------------------------------- the transition system
 
+def expr_vars(e, acc):
+    if not isinstance(e, tuple):
+        return
+    if not e:
+        return
+    if e[0] == "v":
+        acc.add(e[1])
+        return
+    if e[0] == "in":
+        expr_vars(e[1], acc)
+        return
+    if e[0] in ("c", "nondet"):
+        return
+    for x in e[1:]:
+        if isinstance(x, tuple):
+            expr_vars(x, acc)
+
+
+OBSERVED_PREFIXES = ("G.", "pc.", "uncaught.", "active.", "model_error", "F.Channel.v_closed")
+
+
 class TS:
-    def __init__(self, model: Model, comp):
+    def __init__(self, model: Model, comp, prefix=None):
+        """prefix = (thread name, predicate(state) -> bool): that thread is run alone, concretely, until the predicate
+        holds; the state reached becomes the initial state (set-up code such as serve()'s initialisation)."""
         comp.finalize_classes() if not getattr(comp, "_finalized", False) else None
         comp._finalized = True
         self.model, self.comp, self.U = model, comp, model.U
         self.raw_edges = lower(model, comp)
+        self.threads = list(model.threads)
         entries = {t: d["entry"] for t, d in model.threads.items()}
         ends = {t: d["end"] for t, d in model.threads.items()}
-        self.edges = fuse(self.raw_edges, entries)
-        self.threads = list(model.threads)
         self.entry, self.end = entries, ends
         self.vars = dict(model.vars)
-        for e in self.edges:
+        for e in self.raw_edges:
             for v in e.updates:
                 self.vars.setdefault(v, 0)
+        self.prefix_order, self.prefix_thread = [], None
+        if prefix:
+            self._run_prefix(*prefix)
+        self._stabilise()
+        self.edges = fuse(self.raw_edges, self.entry)
         self.by_thread = {t: [e for e in self.edges if e.thread == t] for t in self.threads}
-        nodes = {e.src for e in self.edges} | {e.dst for e in self.edges} | set(entries.values()) | set(ends.values())
+        nodes = {e.src for e in self.edges} | {e.dst for e in self.edges} | set(self.entry.values()) | set(ends.values())
         self.n_nodes = len(nodes)
         self.n_edges = len(self.edges)
+
+    def _run_prefix(self, thread, pred, limit=20000):
+        saved = getattr(self, "by_thread", None)
+        self.by_thread = {t: [e for e in self.raw_edges if e.thread == t] for t in self.threads}
+        st = self.init_state()
+        self.prefix_order = []
+        self.prefix_thread = thread
+        for _ in range(limit):
+            if pred(st):
+                break
+            en = [e for e in self.enabled(st) if e.thread == thread]
+            if not en:
+                raise Unsupported(f"prefix thread {thread} is stuck before the set-up predicate holds")
+            st = self.step(st, en[0])
+            self.prefix_order += [(thread, sync) for _, _, sync in en[0].info if sync]
+        else:
+            raise Unsupported("set-up prefix does not terminate")
+        if st[self.model.errors_var]:
+            raise Unsupported("model error during the set-up prefix")
+        for v, x in st.items():
+            if not v.startswith("pc."):
+                self.vars[v] = x
+        self.entry = dict(self.entry)
+        self.entry[thread] = st[f"pc.{thread}"]
+
+    def _stabilise(self):
+        """Accesses that cannot race: a load is invisible when no edge reachable from the initial control locations
+        writes what it reads; a store is invisible when nothing reachable (and no query) ever reads what it writes."""
+        by_src = {}
+        for e in self.raw_edges:
+            by_src.setdefault((e.thread, e.src), []).append(e)
+        reach = []
+        for t in self.threads:
+            seen, stack = {self.entry[t]}, [self.entry[t]]
+            while stack:
+                n = stack.pop()
+                for e in by_src.get((t, n), []):
+                    reach.append(e)
+                    if e.dst not in seen:
+                        seen.add(e.dst)
+                        stack.append(e.dst)
+        self.raw_edges = reach
+        written, read = set(), set()
+        per_edge = {}
+        for e in reach:
+            r = set()
+            expr_vars(e.guard, r)
+            for x in e.updates.values():
+                expr_vars(x, r)
+            per_edge[id(e)] = r
+            read |= r
+            written |= set(e.updates)
+
+        def local(v, t):
+            return v.startswith(f"L.{t}.") or v in (f"exc.{t}", f"uncaught.{t}")
+
+        self.stable_loads = self.dead_stores = 0
+        for e in reach:
+            if not e.visible or e.kind != "step" or any(sync for _, _, sync in e.info):
+                continue
+            t = e.thread
+            shared_reads = {v for v in per_edge[id(e)] if not local(v, t)}
+            shared_writes = {v for v in e.updates if not local(v, t)}
+            if any(v.startswith(OBSERVED_PREFIXES) for v in shared_writes):
+                continue
+            if shared_reads & written:
+                continue
+            if any(v in read for v in shared_writes):
+                continue
+            e.visible = False
+            if shared_writes:
+                self.dead_stores += 1
+            else:
+                self.stable_loads += 1
 
     # ---------------- simulation
     def init_state(self):
@@ -494,6 +595,8 @@ class Encoding:
         # fix them as the first steps, in thread order (removes a factorial of equivalent schedules)
         k = 0
         for ti, t in enumerate(ts.threads):
+            if ts.prefix_thread is not None:
+                break   # the set-up thread's leading steps come first; no canonical order is imposed then
             if ts.model.threads[t]["dynamic"] or ts.entry[t] == ts.end[t]:
                 continue
             if k < K and any(e.src == ts.entry[t] and e.info and e.info[-1][2] == "begin" and len(e.info) == 1 for e in ts.by_thread[t]):
